@@ -26,7 +26,11 @@ DEFAULTS = {"a": 0.01, "n": 0.2, "m": 5.0, "s": 0.3, "e": 50.0,
             "printf": "{id} {start} {end}", "time_format": "%S"}
 
 PRINTFS = [None, "{id}|{start}|{end}|{duration}", "E{id}|{start}|{end}",
-           "{id}\\t{start}\\t{end}", "{start}|{end}|{id}", "{duration}|{id}"]
+           "{id}\\t{start}\\t{end}", "{start}|{end}|{id}", "{duration}|{id}",
+           # non-ASCII literals and a backslash sequence that is not one of
+           # the documented \\n \\t \\r escapes (stays as it is)
+           "\u00e9v\u00e9nement {id} \u2192 {start}\u2016{end}",
+           "{id}\\q{start}\\q{end}"]
 TIMEFMTS = [None, "%S", "%I", "%h:%m:%s.%i", "%i_%s_%m_%h", "%hh%mm%ss%ims"]
 BAD_TIMEFMTS = ["%x", "%h:%m:%s.%i%q", "%H:%M"]
 
@@ -191,6 +195,8 @@ class Engine:
         O_ext = T.choice(["wav", "raw"])
         cmd = T.draw(10) == 0
         debug_file = T.draw(5) == 0
+        wav_trailer = T.draw(3) == 0
+        stale_tmp = T.draw(3) == 0
         if T.draw(25) == 0 and not save_O and not quiet:
             bad_tf = T.choice(BAD_TIMEFMTS)
         intr = None
@@ -205,7 +211,8 @@ class Engine:
               "time_format": tf, "bad_time_format": bad_tf, "quiet": quiet,
               "save_o": save_o, "save_O": save_O, "join": join,
               "outfmt": outfmt, "o_ext": o_ext, "O_ext": O_ext, "cmd": cmd,
-              "debug_file": debug_file,
+              "debug_file": debug_file, "wav_trailer": wav_trailer,
+              "stale_tmp": stale_tmp,
               "interrupt": intr, "sched": gen_sched(T, tier, n)}
         if defaults_ok and any(k not in opt for k in "nms"):
             # documented defaults are 20 / 30 / 500 windows: use run lengths
@@ -270,11 +277,8 @@ class Engine:
                         tmp, "in.wav" if kind == "wav" else "in.bin")
                     if kind == "wav_noext":
                         argv += ["-f", "wav"]
-                    with wave.open(inp, "wb") as wf:
-                        wf.setframerate(sr)
-                        wf.setsampwidth(sw)
-                        wf.setnchannels(ch)
-                        wf.writeframes(data)
+                    C.write_wav(inp, data, sr, sw, ch,
+                                trailer=bool(sc.get("wav_trailer")))
                 else:
                     inp = os.path.join(
                         tmp, "in.raw" if kind == "raw" else "in.dat")
@@ -312,6 +316,11 @@ class Engine:
             if sc["save_O"]:
                 O_path = os.path.join(tmp, "stream." + sc["O_ext"])
                 argv += ["-O", O_path]
+                if sc["O_ext"] != "wav" and sc.get("stale_tmp"):
+                    # an earlier, interrupted run left its temporary wav
+                    # behind (different audio)
+                    C.write_wav(O_path + ".wav", b"\x11" * (4 * sw * ch), sr,
+                                sw, ch)
             if sc["join"] is not None:
                 argv += ["-j", repr(float(sc["join"]))]
             if sc["outfmt"] is not None and (sc["save_o"] or sc["save_O"]):
@@ -574,7 +583,8 @@ class Engine:
         else:
             pf = sc["printf"] if sc["printf"] is not None \
                 else DEFAULTS["printf"]
-            pf = pf.replace("\\t", "\t")
+            pf = pf.replace("\\n", "\n").replace("\\t", "\t").replace(
+                "\\r", "\r")
             tf = sc["time_format"] or DEFAULTS["time_format"]
             if len(lines) != len(E):
                 return V("C15.1", "%d line(s) printed for %d detection(s): %r"
